@@ -284,3 +284,94 @@ def role_c07(wit, n, chunks):
         # does some read leave the buffer exactly full?
         return 'some-chunking'
     return 'n/a'
+
+
+# ----------------------------------------------------------------------------- C10 / C07: streams built from a library of realistic messages
+LIBRARY = [
+    # (message, expected handler calls, expected response bytes)
+    (b'*Q?\n', [6], b'7\n'),
+    (b'X\n', [3], b''),
+    (b'A:Q?;:X\n', [4, 3], b'7\n'),
+    (b'*Q? 1\n', [], b''),            # query with a surplus parameter: fails at execution, no response
+    (b'U? "x"\n', [], b''),           # query whose parameter has the wrong kind
+    (b'U? 5\n', [11], b'7\n'),
+    (b'ZZ\n', [], b''),               # undefined header
+    (b'X?\n', [], b''),               # query form of a command-only node
+    (b'\n', [], b''),
+    (b'A:C;B 1\n', [1], b''),        # last unit fails at execution after the path moved to A
+    (b'C\n', [2], b''),              # relative header that exists at the root and below A
+    (b'A:C;Q\n', [1], b''),          # command form of a query-only node below A
+    (b'S "a\'b"\n', [9], b''),
+]
+
+
+class LibraryProcess:
+    """process on streams of 1..k library messages, every chunking: handlers, responses (exactly those of the successful
+    queries, one write + flush each, before the next read) and nothing else"""
+
+    def __init__(s, world, params):
+        s.w, s.ex = world, world.ex
+        s.k = params.get('k', 2)
+        s.N = params.get('N', 16)
+        s.max_len = params.get('max_len', 12)
+        s.twin = params.get('twin', False)
+
+    def body(s):
+        ex, w = s.ex, s.w
+        ex.step_limit = 200_000
+        n = ex.decide([(i, True) for i in range(1, s.k + 1)]) if s.k > 1 else 1
+        picks = [ex.decide([(i, True) for i in range(len(LIBRARY))]) for _ in range(n)]
+        stream = b''.join(LIBRARY[i][0] for i in picks)
+        s.stream = stream
+        if len(stream) > s.max_len:
+            return {'viol': None, 'skipped': True}
+        dev = w.new_device('T1')
+        ad = ScriptAdapter(list(stream), fork_chunks=True, max_empty=0)
+        s.ad = ad
+        r = w.process(dev, s.N, ad)
+        calls = calls_of(dev)
+        exp_calls = [c for i in picks for c in LIBRARY[i][1]]
+        exp_out = b''.join(LIBRARY[i][2] for i in picks)
+        exp_writes = [list(LIBRARY[i][2]) for i in picks if LIBRARY[i][2]]
+        if s.twin:
+            exp_out += b'!'
+        writes = [list(t[1]) for t in ad.trace if t[0] == 'w']
+        viol = None
+        if calls != exp_calls:
+            viol = f'handlers {calls}, expected {exp_calls}'
+        elif bytes(ad.out) != exp_out:
+            viol = f'bytes written to the transport {bytes(ad.out)!r}, expected exactly the query responses {exp_out!r}'
+        elif writes != exp_writes:
+            viol = f'writes {writes}, expected one write per answered message {exp_writes}'
+        else:
+            pending = False
+            for t in ad.trace:
+                if t[0] == 'w':
+                    pending = True
+                elif t[0] == 'f':
+                    if not pending:
+                        viol = 'flush without a write'
+                    pending = False
+                elif t[0] in ('r', 'r!') and pending:
+                    viol = 'read before the written response was flushed'
+            if r.variant == 'Ok':
+                viol = 'process returned Ok'
+        return {'viol': viol, 'picks': picks}
+
+    def on_leaf(s, out):
+        rec = {'kind': out[0]}
+        v = None
+        if out[0] == 'ok':
+            v = out[1]['viol']
+            rule = 'LIBRARY'
+            rec['skipped'] = bool(out[1].get('skipped'))
+        else:
+            v = out[1]
+            rule = out[0].upper()
+        if v:
+            rec['violations'] = [{'rule': rule, 'what': f'{v}; stream {s.stream!r} N={s.N} chunks={list(s.ad.chosen)}', 'input': s.stream.hex(), 'device': 'T1', 'n': s.N, 'entry': 'process',
+                                  'chunks': list(s.ad.chosen), 'expected_out': bytes(b''.join(LIBRARY[i][2] for i in out[1]['picks'])).hex() if out[0] == 'ok' else None,
+                                  'expected_calls': [c for i in out[1]['picks'] for c in LIBRARY[i][1]] if out[0] == 'ok' else None, 'role': f'{rule}'}]
+        if hash(tuple(map(str, s.ex.decisions))) % 199 == 0:
+            rec['sample'] = {'stream': repr(s.stream), 'chunks': list(getattr(s, 'ad', None).chosen) if getattr(s, 'ad', None) else None}
+        return rec
